@@ -209,16 +209,22 @@ type ClientObs struct {
 	Reported bool    // the client reports a server ID now
 	Peer     peer.ID // that ID
 	Done     bool
+	Bearers  []string // bearer values the client sent in requests during this delivery
 }
 
 type Client interface {
 	// Coarse: only the final outcome of the whole exchange is observable (AuthenticatedDo); the
 	// per-step results and the state are then not compared with the model (L1 still applies).
 	Coarse() bool
-	Start(initiate bool) (authz string, err error)
-	Deliver(kind string, val string) ClientObs // kind: "www" (WWW-Authenticate, 401) or "info" (Authentication-Info, 200)
-	Clone() Client                             // an independent copy in the same state (nil if unsupported)
-	State() string                             // sc vas vc wfb done, "" if unknown
+	// Start: mode "ci" (client-initiated, no token for the hostname), "si" (a stale token is refused:
+	// the next delivery is the server's 401 with its challenge), "tok" (whatever the client's own
+	// token cache makes it do; only meaningful for sessions of a shared client)
+	Start(mode string) (authz string, err error)
+	// Deliver: kind "www" (WWW-Authenticate, 401), "info" (Authentication-Info, 200) or "status:NNN"
+	// (an answer without authentication headers)
+	Deliver(kind string, val string) ClientObs
+	Clone() Client // an independent copy in the same state (nil if unsupported)
+	State() string // sc vas vc wfb done, "" if unknown
 }
 
 type System interface {
@@ -410,6 +416,197 @@ func SecretMatrix(mk func(*World) System, res *vfh.Result, profile string) error
 }
 
 // ---------------------------------------------------------------------------------------------
+// the family of hostname pairs that a careless normalisation would merge
+
+type HostPair struct{ Name, A, B string }
+
+func HostFamily() []HostPair {
+	return []HostPair{
+		{"other-port", "alpha.example.com:4001", "alpha.example.com:4002"},
+		{"default-port-vs-none", "alpha.example.com", "alpha.example.com:443"},
+		{"port-80-vs-none", "alpha.example.com", "alpha.example.com:80"},
+		{"letter-case", "alpha.example.com", "Alpha.Example.COM"},
+		{"letter-case-with-port", "alpha.example.com:8443", "ALPHA.example.com:8443"},
+		{"trailing-dot", "alpha.example.com", "alpha.example.com."},
+		{"ipv6-port", "[2001:db8::1]:443", "[2001:db8::1]:8443"},
+		{"ipv6-brackets-port-vs-none", "[2001:db8::1]", "[2001:db8::1]:443"},
+		{"ipv6-zero-compression", "[2001:db8::1]:443", "[2001:db8:0:0:0:0:0:1]:443"},
+		{"ipv4-port", "192.0.2.7:443", "192.0.2.7:8443"},
+		{"userinfo", "alpha.example.com", "user@alpha.example.com"},
+		{"prefix", "alpha.example.com", "alpha.example.com.evil.example"},
+		{"suffix", "example.com", "alpha.example.com"},
+		{"prefix-no-dot", "alpha.example.com", "alpha.example.community"},
+		{"leading-space-trim", "alpha.example.com", "alpha.example.com "},
+		{"punycode-case", "xn--bcher-kva.example", "XN--BCHER-KVA.example"},
+	}
+}
+
+// ---------------------------------------------------------------------------------------------
+// lifetimes: every artefact aged across every boundary, for several configurations of TokenTTL
+
+var TokenTTLs = []time.Duration{0, time.Second, time.Minute, ChallengeTTL - time.Nanosecond, ChallengeTTL, ChallengeTTL + time.Nanosecond,
+	2 * ChallengeTTL, time.Hour, 24 * time.Hour}
+
+// TimeMatrix: for each TokenTTL (smaller than, equal to, larger than the challenge lifetime; tiny and
+// large) a server-initiated challenge state, a client-initiated challenge state (each with a valid
+// signature) and a bearer token are minted, the clock is advanced by an age just below / at / just
+// above each of the two lifetimes, and each artefact is presented.  L1 (the statement): a challenge
+// state older than the challenge lifetime is never accepted and mints no token, a token older than
+// TokenTTL is never accepted - whatever the other lifetime is.  L2: younger ones are accepted.
+func TimeMatrix(mk func(*World) System, res *vfh.Result, profile string) error {
+	if profile == "" {
+		profile = "ed25519"
+	}
+	keys, err := LoadKeys(profile, vfh.Seed())
+	if err != nil {
+		return err
+	}
+	host := "alpha.example.com"
+	for _, ttl := range TokenTTLs {
+		w := &World{Keys: keys, HmacKey: map[string][]byte{"S": []byte("time-matrix-secret-S"), "S2": []byte("time-matrix-secret-S2")},
+			SrvKey: map[string]string{"S": "kS", "S2": "kS"}, Host: map[string]string{"h1": host}, TokenTTL: ttl}
+		sys := mk(w)
+		ageSet := map[time.Duration]bool{0: true, time.Nanosecond: true, 2*max(ttl, ChallengeTTL) + time.Second: true, 400 * 24 * time.Hour: true}
+		for _, b := range []time.Duration{ttl, ChallengeTTL} {
+			for _, e := range []time.Duration{-time.Second, -time.Nanosecond, 0, time.Nanosecond, time.Second} {
+				if b+e >= 0 {
+					ageSet[b+e] = true
+				}
+			}
+		}
+		var ages []time.Duration
+		for a := range ageSet {
+			ages = append(ages, a)
+		}
+		sort.Slice(ages, func(i, j int) bool { return ages[i] < ages[j] })
+		for _, age := range ages {
+			// mint at t0
+			si := ParseParams(sys.Server("S", host, "").WWW)
+			ci := ParseParams(sys.Server("S", host, compose([]param{{k: "challenge-server", txt: aNonceStr}, {k: "public-key", raw: keys.PubB["kA"]}})).WWW)
+			tk := ParseParams(sys.Server("S", host, "").WWW)
+			if si["opaque"] == "" || ci["opaque"] == "" || tk["opaque"] == "" {
+				return fmt.Errorf("time matrix: no challenge issued")
+			}
+			sign := func(ch string) []byte {
+				sg, err := keys.Priv["kA"].Sign(Payload("cli", []byte(ch), keys.PubB["kS"], host))
+				if err != nil {
+					panic(err)
+				}
+				return sg
+			}
+			vh := func(p map[string]string, withPk bool) string {
+				ps := []param{{k: "opaque", txt: p["opaque"]}, {k: "sig", raw: sign(p["challenge-client"])}, {k: "challenge-server", txt: aNonceStr}}
+				if withPk {
+					ps = append(ps, param{k: "public-key", raw: keys.PubB["kA"]})
+				}
+				return compose(ps)
+			}
+			own := sys.Server("S", host, vh(tk, true))
+			token := ParseParams(own.Info)["bearer"]
+			if !own.Accepted || token == "" {
+				res.AddMismatch(vfh.Mismatch{Class: "L2:time-matrix-fresh-refused", Walk: -1, What: fmt.Sprintf("TokenTTL=%v: a fresh handshake is refused: %s", ttl, own.Detail)})
+				continue
+			}
+			sys.Advance(age)
+			type probe struct {
+				what string
+				hdr  string
+				life time.Duration
+				cls  string
+			}
+			for _, pr := range []probe{
+				{"server-initiated challenge state", vh(si, true), ChallengeTTL, "srv-accepts-expired-challenge"},
+				{"client-initiated challenge state", vh(ci, false), ChallengeTTL, "srv-accepts-expired-challenge"},
+				{"bearer token", compose([]param{{k: "bearer", txt: token}}), ttl, "srv-accepts-expired-token"},
+			} {
+				o := sys.Server("S", host, pr.hdr)
+				res.Inc("time_matrix_requests", 1)
+				res.Case(fmt.Sprintf("time|%s|ttl=%v|age-life=%v|%v", pr.what, ttl, age-pr.life, o.Accepted))
+				minted := ParseParams(o.Info)["bearer"] != ""
+				switch {
+				case age > pr.life && (o.Accepted || minted):
+					res.AddMismatch(vfh.Mismatch{Class: pr.cls, Walk: -1, What: fmt.Sprintf("a %s of age %v (lifetime %v, TokenTTL %v, challenge lifetime %v) is accepted (peer reported: %v, token minted: %v)",
+						pr.what, age, pr.life, ttl, ChallengeTTL, o.Accepted, minted), Expected: "rejected", Got: map[string]any{"reported": keys.nameOfID(o.Peer), "age": age.String(), "TokenTTL": ttl.String()}})
+				case age <= pr.life && !o.Accepted:
+					res.AddMismatch(vfh.Mismatch{Class: "L2:rejects-unexpired", Walk: -1, What: fmt.Sprintf("a %s of age %v (lifetime %v, TokenTTL %v) is refused: %s", pr.what, age, pr.life, ttl, o.Detail)})
+				}
+			}
+		}
+		if c, ok := sys.(interface{ Close() }); ok {
+			c.Close()
+		}
+	}
+	var ts []string
+	for _, t := range TokenTTLs {
+		ts = append(ts, t.String())
+	}
+	res.Set("token_ttls", ts)
+	return nil
+}
+
+// ServerHostMatrix: state minted for one name of a confusable pair presented under the other name
+// (same server, same secret, same key).  A challenge state must be refused (the hostname is part of the
+// state and of the signed data).  A bearer token: the code does not compare the token's hostname on
+// the bearer path and the statement does not name the hostname for tokens; recorded (L2), not judged.
+func ServerHostMatrix(mk func(*World) System, res *vfh.Result, profile string) error {
+	if profile == "" {
+		profile = "ed25519"
+	}
+	keys, err := LoadKeys(profile, vfh.Seed())
+	if err != nil {
+		return err
+	}
+	var names []string
+	for _, hp := range HostFamily() {
+		names = append(names, hp.Name)
+		for dir := 0; dir < 2; dir++ {
+			a, b := hp.A, hp.B
+			if dir == 1 {
+				a, b = b, a
+			}
+			w := &World{Keys: keys, HmacKey: map[string][]byte{"S": []byte("host-matrix-secret-S"), "S2": []byte("host-matrix-secret-S2")},
+				SrvKey: map[string]string{"S": "kS", "S2": "kS"}, Host: map[string]string{"h1": a, "h1a": b}, TokenTTL: time.Hour}
+			sys := mk(w)
+			m := ParseParams(sys.Server("S", a, "").WWW)
+			if m["opaque"] == "" {
+				return fmt.Errorf("host matrix: no challenge for %q", a)
+			}
+			hdrFor := func(signedHost string) string {
+				sg, err := keys.Priv["kA"].Sign(Payload("cli", []byte(m["challenge-client"]), keys.PubB["kS"], signedHost))
+				if err != nil {
+					panic(err)
+				}
+				return compose([]param{{k: "public-key", raw: keys.PubB["kA"]}, {k: "opaque", txt: m["opaque"]}, {k: "sig", raw: sg}, {k: "challenge-server", txt: aNonceStr}})
+			}
+			for _, sh := range []string{a, b} {
+				res.Inc("host_matrix_requests", 1)
+				if o := sys.Server("S", b, hdrFor(sh)); o.Accepted {
+					res.AddMismatch(vfh.Mismatch{Class: "srv-accepts-wrong-hostname", Walk: -1, What: fmt.Sprintf("a challenge state minted for %q is accepted in a request to %q (signature over %q)", a, b, sh),
+						Expected: "rejected", Got: keys.nameOfID(o.Peer)})
+				}
+			}
+			own := sys.Server("S", a, hdrFor(a))
+			tok := ParseParams(own.Info)["bearer"]
+			if !own.Accepted || tok == "" {
+				res.AddMismatch(vfh.Mismatch{Class: "L2:host-matrix-own-refused", Walk: -1, What: fmt.Sprintf("handshake for %q refused: %s", a, own.Detail)})
+				continue
+			}
+			res.Inc("host_matrix_requests", 1)
+			if o := sys.Server("S", b, compose([]param{{k: "bearer", txt: tok}})); o.Accepted {
+				res.Inc("tokens_accepted_under_other_host", 1)
+				res.AddMismatch(vfh.Mismatch{Class: "L2:token-accepted-under-other-host", Walk: -1,
+					What: fmt.Sprintf("the server accepts the bearer token it minted for Host %q in a request with Host %q (the bearer path does not compare the token's hostname)", a, b)})
+			}
+			if c, ok := sys.(interface{ Close() }); ok {
+				c.Close()
+			}
+		}
+	}
+	res.Set("hostname_pair_family", names)
+	return nil
+}
+
+// ---------------------------------------------------------------------------------------------
 // ledger
 
 type chalEntry struct {
@@ -469,6 +666,10 @@ type run struct {
 	cliFed     [][]byte // server public keys fed to C in this session
 	cliChalFed []string // challenge-client values fed to C in this session
 	cliRep     bool
+	cliProved  map[string]map[peer.ID]bool // hostname -> server IDs the (shared) client verified for it in this behaviour
+	tokHost    map[string]string           // bearer value handed to the client -> hostname of the exchange it was handed in
+	cliTok     string                      // the bearer value of the current exchange
+	nsess      int
 
 	walk, step    int
 	prefix        []vfh.Op
@@ -576,7 +777,7 @@ func (r *run) sigFor(t []any) (sig []byte, has bool) {
 		// the honest client answers a server-initiated challenge for `host` with server key `pub`
 		r.demand++
 		c := r.sys.NewClient(host)
-		if _, err := c.Start(false); err != nil {
+		if _, err := c.Start("si"); err != nil {
 			panic(unobtainable("honest client cannot start: " + err.Error()))
 		}
 		o := c.Deliver("www", fmt.Sprintf(`%s challenge-client="%s", public-key="%s", opaque="%s"`, Scheme, ch, B64(pub), "b3BhcXVl"))
@@ -1422,7 +1623,11 @@ func (r *run) timeProbes(srv, host, name string, ps []param, b *blob) {
 		return
 	}
 	hdr := compose(ps)
-	for _, d := range []time.Duration{ttl - time.Nanosecond, ttl, ttl + time.Nanosecond, ttl + time.Second, 2 * ttl, 1000 * 24 * time.Hour, -time.Nanosecond, -time.Hour} {
+	offs := []time.Duration{2 * max(ChallengeTTL, r.w.TokenTTL), 1000 * 24 * time.Hour, -time.Nanosecond, -time.Hour}
+	for _, b := range []time.Duration{ChallengeTTL, r.w.TokenTTL} { // both lifetimes, whichever governs this artefact
+		offs = append(offs, b-time.Nanosecond, b, b+time.Nanosecond, b+time.Second)
+	}
+	for _, d := range offs {
 		at := created.Add(d)
 		var o ServerObs
 		if !r.sys.At(at, func() { o = r.serverRequest(srv, host, hdr, candsOf(ps), fmt.Sprintf("at created%+v", d)) }) {
@@ -1487,7 +1692,28 @@ func (r *run) clientJustified(q peer.ID, presented []byte) (bool, string) {
 			return true, ""
 		}
 	}
+	// no fresh proof in this exchange: the client may rely on what it verified earlier for exactly this
+	// hostname (its token cache), never on what it verified for another one
+	if len(r.cliSent) == 0 && r.cliProved[r.cliHost][q] {
+		return true, ""
+	}
+	for h, m := range r.cliProved {
+		if h != r.cliHost && m[q] {
+			return false, "client-reports-server-cached-for-other-hostname"
+		}
+	}
 	return false, "client-reports-unproven-server"
+}
+
+// noteBearers: a bearer token handed to the client in an exchange with hostname h must never be sent
+// to another hostname.
+func (r *run) noteBearers(vals []string) {
+	for _, v := range vals {
+		if h, ok := r.tokHost[v]; ok && h != r.cliHost {
+			r.mismatch("client-sends-token-to-other-hostname", fmt.Sprintf("the client sends the bearer token it obtained for %q in a request to %q", h, r.cliHost),
+				"no token", v)
+		}
+	}
 }
 
 func (r *run) noteClientOut(authz string, fed []byte) {
@@ -1514,21 +1740,52 @@ func (r *run) doClientOp(op vfh.Op, post []any) {
 	switch op.Name() {
 	case "cstart":
 		r.cliHost = r.host(op.S("host"))
-		r.cli = r.sys.NewClient(r.cliHost)
+		mode := op.S("mode")
+		if ss, ok := r.sys.(interface{ NewSession(host string) Client }); ok && mode != "si" {
+			r.cli = ss.NewSession(r.cliHost) // one client (token cache) for all exchanges of the behaviour
+		} else {
+			r.cli = r.sys.NewClient(r.cliHost)
+			if mode == "tok" {
+				mode = "si" // no token cache at this level: the refused token is simulated
+			}
+		}
 		r.cliSent, r.cliFed, r.cliChalFed, r.cliRep = nil, nil, nil, false
-		authz, err := r.cli.Start(op.S("mode") == "ci")
+		r.nsess++
+		r.cliTok = B64([]byte(fmt.Sprintf("token-%d-for-%s", r.nsess, r.cliHost)))
+		authz, err := r.cli.Start(mode)
 		if err != nil {
 			r.mismatch("L2:client-start", "client start failed", nil, err.Error())
 			return
 		}
-		if op.S("mode") == "ci" {
-			p := ParseParams(authz)
-			if len(p["challenge-server"]) < 32 || !bytes.Equal(unB64(p["public-key"]), r.w.Keys.PubB["kC"]) {
-				r.mismatch("L2:client-start", "client-initiated request lacks challenge-server / public-key", nil, authz)
+		p := ParseParams(authz)
+		if p["bearer"] != "" {
+			r.noteBearers([]string{p["bearer"]})
+		}
+		if len(p["challenge-server"]) >= 32 {
+			if mode == "ci" {
+				r.nonce[op.I("chS")] = p["challenge-server"]
 			}
-			r.nonce[op.I("chS")] = p["challenge-server"]
 			r.noteClientOut(authz, nil)
 		}
+		if mode == "ci" && !r.cli.Coarse() && (len(p["challenge-server"]) < 32 || !bytes.Equal(unB64(p["public-key"]), r.w.Keys.PubB["kC"])) {
+			r.mismatch("L2:client-start", "client-initiated request lacks challenge-server / public-key", nil, authz)
+		}
+	case "ctok":
+		// the token went out; the answer is not a 401 and carries no authentication
+		if r.cli == nil || !r.cli.Coarse() {
+			r.res.Inc("token_steps_not_applicable", 1)
+			return
+		}
+		o := r.cli.Deliver("status:"+op.S("status"), "")
+		r.res.Inc("client_deliveries", 1)
+		r.noteBearers(o.Bearers)
+		if o.Reported {
+			if ok, cls := r.clientJustified(o.Peer, nil); !ok {
+				r.mismatch(cls, "the client reports server "+r.w.Keys.nameOfID(o.Peer)+" for a request to "+r.cliHost+" answered with status "+op.S("status")+" and no authentication",
+					"error", map[string]any{"sent": r.cliSent, "proved": fmt.Sprint(r.cliProved)})
+			}
+		}
+		r.res.Case("ctok|" + op.S("status") + "|" + fmt.Sprint(o.Reported))
 	case "cwww", "cinfo":
 		if r.cli == nil {
 			r.skip("client step without session")
@@ -1565,11 +1822,9 @@ func (r *run) doClientOp(op vfh.Op, post []any) {
 			if hasSig {
 				ps = append(ps, param{k: "sig", raw: sig})
 			}
-			tok := r.lastTok
-			if tok == "" {
-				tok = "dG9rZW4="
-			}
-			ps = append(ps, param{k: "bearer", txt: tok})
+			// a bearer value unique to this exchange (the client never looks inside)
+			ps = append(ps, param{k: "bearer", txt: r.cliTok})
+			r.tokHost[r.cliTok] = r.cliHost
 		}
 		alt := op.S("alt")
 		if alt != "none" {
@@ -1624,6 +1879,10 @@ func (r *run) doClientOp(op vfh.Op, post []any) {
 		}
 		o := r.cli.Deliver(kind, compose(ps))
 		r.res.Inc("client_deliveries", 1)
+		r.noteBearers(o.Bearers)
+		if bp := ParseParams(o.Authz)["bearer"]; bp != "" {
+			r.noteBearers([]string{bp})
+		}
 		got := "err"
 		if o.Err == nil {
 			switch {
@@ -1655,6 +1914,11 @@ func (r *run) doClientOp(op vfh.Op, post []any) {
 			if ok, cls := r.clientJustified(o.Peer, presented); !ok {
 				r.mismatch(cls, "the client reports server "+r.w.Keys.nameOfID(o.Peer)+" although that key never signed the client's challenge, the client's key and hostname "+r.cliHost,
 					"error", map[string]any{"header": compose(ps), "sent": r.cliSent})
+			} else {
+				if r.cliProved[r.cliHost] == nil {
+					r.cliProved[r.cliHost] = map[peer.ID]bool{}
+				}
+				r.cliProved[r.cliHost][o.Peer] = true
 			}
 			r.cliRep = true
 		}
@@ -1682,6 +1946,7 @@ func (r *run) reset() {
 	r.chals, r.toks, r.sigs = nil, nil, nil
 	r.lastChal, r.lastTok = "", ""
 	r.cli, r.cliSent, r.cliFed, r.cliChalFed, r.cliRep = nil, nil, nil, nil, false
+	r.cliProved, r.tokHost, r.nsess = map[string]map[peer.ID]bool{}, map[string]string{}, 0
 	r.prefix = nil
 }
 
@@ -1715,6 +1980,9 @@ func Replay(mk func(*World) System, res *vfh.Result, opt Options) error {
 		}
 	}
 	used := map[string]int{}
+	usedHosts := map[string]int{}
+	hfam := HostFamily()
+	defer func() { res.Set("hostname_pairs_used_in_replay", len(usedHosts)) }()
 	nwalk := 0
 	defer func() { res.Set("secret_pairs_used_in_replay", len(used)) }()
 	defer debug.SetGCPercent(debug.SetGCPercent(400))
@@ -1740,6 +2008,8 @@ func Replay(mk func(*World) System, res *vfh.Result, opt Options) error {
 		}
 		conf := Conf{MaxT: int(cm["maxt"].(float64)), ChalTTL: int(cm["chalttl"].(float64)), TokTTL: int(cm["tokttl"].(float64)),
 			S2SameKey: cm["s2samekey"].(bool), Explicit: cm["explicit"].(bool), Name: filepath.Base(f)}
+		al, _ := cm["alias"].([]any)
+		aliased := len(al) > 0
 		unit := ChallengeTTL / time.Duration(conf.ChalTTL)
 		w0 := &World{Keys: keys,
 			SrvKey: map[string]string{"S": "kS", "S2": "kS2"}, Host: map[string]string{"h1": "alpha.example.com", "h2": "beta.example.com:8443"},
@@ -1768,6 +2038,16 @@ func Replay(mk func(*World) System, res *vfh.Result, opt Options) error {
 				w.HmacKey = map[string][]byte{"S": pair.B, "S2": pair.A}
 			}
 			used[pair.Name]++
+			if aliased {
+				// the alias pair of the model: a pair of names a careless normalisation would merge
+				hp := hfam[(int(vfh.Seed())*17+nwalk)%len(hfam)]
+				a, b := hp.A, hp.B
+				if (nwalk/len(hfam))%2 == 1 {
+					a, b = b, a
+				}
+				w.Host = map[string]string{"h1": a, "h1a": b, "h2": w0.Host["h2"]}
+				usedHosts[hp.Name]++
+			}
 			sys := mk(&w)
 			r := &run{w: &w, sys: sys, res: res, rnd: rand.New(rand.NewSource(vfh.Seed()*104729 + int64(wk.Walk))), conf: conf, unit: unit,
 				file: filepath.Base(f), lite: opt.Lite, budget: budget, walk: wk.Walk}
@@ -1777,7 +2057,7 @@ func Replay(mk func(*World) System, res *vfh.Result, opt Options) error {
 				r.skipped = false
 				r.prefix = append(r.prefix, st.Op)
 				var post []any
-				if err := json.Unmarshal(st.State, &post); err != nil || len(post) != 6 {
+				if err := json.Unmarshal(st.State, &post); err != nil || len(post) != 7 {
 					return fmt.Errorf("state layout: %v %s", err, string(st.State))
 				}
 				switch st.Op.Name() {
@@ -1785,7 +2065,7 @@ func Replay(mk func(*World) System, res *vfh.Result, opt Options) error {
 					sys.Advance(unit)
 				case "challenge", "sign", "verify", "bearer":
 					r.doServerOp(st.Op, post)
-				case "cstart", "cwww", "cinfo":
+				case "cstart", "cwww", "cinfo", "ctok":
 					r.doClientOp(st.Op, post)
 				default:
 					return fmt.Errorf("unknown op %q", st.Op.Name())
